@@ -498,4 +498,161 @@ theorem runTasks_spec (limit : Option Nat) (js : List Job) (hnd : (js.map (·.k)
     simp only []
     split <;> rfl
 
+/-! ### `_stop_sblocks` -/
+
+structure SbState where
+  trace : List Ev
+  cs : CState
+  dur : Nat
+
+/-- what awaiting `_run_tasks("stop", jobs)` means in the model: the first steps of the stop_async
+    tasks, then their ends in the order of time (`awaitJobs`), and the time it takes -/
+def asyncSegs (bs : List Blk) (failed inited : List Nat) (jobs : List Job) : List Ev × Nat :=
+  let sabs := (jobs.map (·.k)).flatMap fun k =>
+    if immediate bs failed inited k then [Ev.sab k, Ev.sae k (stopJob bs failed inited k).fin]
+    else [Ev.sab k]
+  let r := awaitJobs none 0 (sortJobs jobs)
+  let saes := (sortEnds (r.1.filter fun e => !immediate bs failed inited e.k)).map
+    fun e => Ev.sae e.k (seenRes bs e)
+  (sabs ++ saes, r.2.1)
+
+/-- the primitives of `_stop_sblocks` as the model understands them; `en` = the order in which a
+    set is iterated, `oa` = the enumeration of the asynchronous set (for the control tasks that run
+    while `_stop_sblocks` yields) -/
+@[reducible] def sbPrims (bs : List Blk) (failed inited : List Nat) (en : List Nat → List Nat) (oa : List Nat) :
+    TrL.StopPrims SbState TExc Nat Job where
+  excIs := excIs
+  enum := en
+  isAddonAsync k := (blk bs k).kind == .async || (blk bs k).kind == .ainit || (blk bs k).kind == .aplain
+    || (blk bs k).kind == .outa
+  hasStopAsync k := (blk bs k).kind == .async || (blk bs k).kind == .outa || (blk bs k).kind == .aplain
+  stopTimeout k := ((blk bs k).stopTimeout : Int)
+  notIn l k := !l.contains k
+  stop k := fun s =>
+    (if (blk bs k).asyncStop then
+        { s with trace := s.trace ++ [Ev.stop k], cs := { s.cs with stopped := s.cs.stopped ++ [k] } }
+      else { s with trace := s.trace ++ (stopSync bs s.cs k).2, cs := (stopSync bs s.cs k).1 },
+     if (blk bs k).fStop then .raise .failure else .next ())
+  sleep0 := fun s =>
+    ({ s with trace := s.trace ++ (oa.filter (outaDelivers bs inited)).map (Ev.out · true) }, .next ())
+  stopTask k := stopJob bs failed inited k
+  runTasksStop jobs := fun s =>
+    ({ s with trace := s.trace ++ (asyncSegs bs failed inited jobs).1, dur := (asyncSegs bs failed inited jobs).2 },
+     .next ())
+
+section
+variable (bs : List Blk) (failed inited : List Nat) (en : List Nat → List Nat) (oa : List Nat)
+
+theorem sb_for1 : ∀ (l : List Nat) (s : SbState), (∀ k ∈ l, (blk bs k).asyncStop = true) →
+    TrL.stopSblocks_for1 (sbPrims bs failed inited en oa) l s =
+      ({ s with trace := s.trace ++ l.map Ev.stop, cs := { s.cs with stopped := s.cs.stopped ++ l } }, .next ()) := by
+  intro l
+  induction l with
+  | nil => intro s _; simp [TrL.stopSblocks_for1, pure_apply]
+  | cons k ks ih =>
+    intro s h
+    have hk : (blk bs k).asyncStop = true := h k (by simp)
+    unfold TrL.stopSblocks_for1
+    simp only [bind_apply, tryExcept_apply, pure_apply, hk, if_true]
+    cases (blk bs k).fStop with
+    | true =>
+      simp only [if_true, excIs_fe, pure_apply]
+      rw [ih _ (fun x hx => h x (by simp [hx]))]
+      simp
+    | false =>
+      simp only [Bool.false_eq_true, if_false]
+      rw [ih _ (fun x hx => h x (by simp [hx]))]
+      simp
+
+theorem sb_for2 : ∀ (l : List Nat) (s : SbState), (∀ k ∈ l, (blk bs k).asyncStop = false) →
+    TrL.stopSblocks_for2 (sbPrims bs failed inited en oa) l s =
+      (⟨s.trace ++ (stopSyncAll bs s.cs l).2, (stopSyncAll bs s.cs l).1, s.dur⟩, .next ()) := by
+  intro l
+  induction l with
+  | nil => intro s _; simp [TrL.stopSblocks_for2, pure_apply, stopSyncAll]
+  | cons k ks ih =>
+    intro s h
+    have hk : (blk bs k).asyncStop = false := h k (by simp)
+    unfold TrL.stopSblocks_for2
+    simp only [bind_apply, tryExcept_apply, pure_apply, hk, Bool.false_eq_true, if_false]
+    cases (blk bs k).fStop with
+    | true =>
+      simp only [if_true, excIs_fe, pure_apply]
+      rw [ih _ (fun x hx => h x (by simp [hx]))]
+      simp [stopSyncAll]
+    | false =>
+      simp only [Bool.false_eq_true, if_false]
+      rw [ih _ (fun x hx => h x (by simp [hx]))]
+      simp [stopSyncAll]
+
+end
+
+/-- the set comprehension of `_stop_sblocks` is the model's asynchronous set … -/
+theorem async_filter_eq (bs : List Blk) (started : List Nat) :
+    List.filter (fun k => ((blk bs k).kind == .async || (blk bs k).kind == .outa || (blk bs k).kind == .aplain) &&
+        decide (((blk bs k).stopTimeout : Int) > (0 : Int)))
+      (List.filter (fun k => (blk bs k).kind == .async || (blk bs k).kind == .ainit || (blk bs k).kind == .aplain
+        || (blk bs k).kind == .outa) started) = setA bs started := by
+  rw [List.filter_filter, setA]
+  apply List.filter_congr
+  intro k _
+  simp only [Blk.asyncStop]
+  cases (blk bs k).kind <;> simp
+
+/-- … and `blocks.difference(async_blocks)` the synchronous one -/
+theorem sync_filter_eq (bs : List Blk) (started : List Nat) :
+    List.filter (fun k => !(setA bs started).contains k) started = setS bs started := by
+  rw [setS]
+  apply List.filter_congr
+  intro k hk
+  simp [setA, hk]
+
+theorem asyncSegs_eq (bs : List Blk) (failed inited oa : List Nat) :
+    asyncSegs bs failed inited (oa.map (stopJob bs failed inited)) =
+      ((oa.flatMap fun k =>
+          if immediate bs failed inited k then [Ev.sab k, Ev.sae k (stopJob bs failed inited k).fin]
+          else [Ev.sab k]) ++
+        (sortEnds ((awaitJobs none 0 (sortJobs (oa.map (stopJob bs failed inited)))).1.filter
+          fun e => !immediate bs failed inited e.k)).map fun e => Ev.sae e.k (seenRes bs e),
+       (awaitJobs none 0 (sortJobs (oa.map (stopJob bs failed inited)))).2.1) := by
+  unfold asyncSegs
+  simp only [List.map_map, Function.comp_def, stopJob_k, List.map_id']
+
+/-- the translated `_stop_sblocks`, run on the set `started` with the model's primitives, IS the
+    model's `stopSblocks` for the orders in which the two sets are iterated -/
+theorem stopSblocks_spec (bs : List Blk) (failed inited started timers0 : List Nat)
+    (en : List Nat → List Nat) (hen : ∀ l, (en l).Perm l) :
+    TrL.stopSblocks (sbPrims bs failed inited en (en (setA bs started))) started
+        ⟨[], { timers := timers0, stopped := [], started := started }, 0⟩ =
+      (⟨(Lifecycle.stopSblocks bs failed inited started timers0 (en (setA bs started)) (en (setS bs started))).trace,
+        (Lifecycle.stopSblocks bs failed inited started timers0 (en (setA bs started)) (en (setS bs started))).st,
+        (Lifecycle.stopSblocks bs failed inited started timers0 (en (setA bs started)) (en (setS bs started))).dur⟩,
+       .next ()) := by
+  have hA : ∀ k ∈ en (setA bs started), (blk bs k).asyncStop = true := by
+    intro k hk
+    have := ((hen _).mem_iff).1 hk
+    simp only [setA, List.mem_filter] at this
+    exact this.2
+  have hS : ∀ k ∈ en (setS bs started), (blk bs k).asyncStop = false := by
+    intro k hk
+    have := ((hen _).mem_iff).1 hk
+    simp only [setS, List.mem_filter, Bool.not_eq_true'] at this
+    exact this.2
+  unfold TrL.stopSblocks
+  simp only [async_filter_eq, sync_filter_eq]
+  by_cases hemp : setA bs started = []
+  · have hoa : en [] = [] := List.Perm.eq_nil (hen [])
+    simp only [hemp, List.isEmpty_nil, Bool.not_true, Bool.false_eq_true, if_false, bind_apply, pure_apply]
+    rw [sb_for2 _ _ _ _ _ _ _ hS]
+    simp [Lifecycle.stopSblocks, hoa, hemp, awaitJobs, sortJobs, sortEnds]
+  · have hne : (setA bs started).isEmpty = false := by
+      cases h : setA bs started with
+      | nil => exact absurd h hemp
+      | cons _ _ => rfl
+    simp only [hne, Bool.not_false, if_true, bind_apply, pure_apply]
+    rw [sb_for1 _ _ _ _ _ _ _ hA]
+    simp only [asyncSegs_eq]
+    rw [sb_for2 _ _ _ _ _ _ _ hS]
+    simp [Lifecycle.stopSblocks]
+
 end Edzed.LifecycleTie
